@@ -1,4 +1,5 @@
-"""Positive control for the render-totality rule (never executed): three hazards and a bounded twin."""
+"""Positive control for the render-totality rule (never executed): four hazards and a bounded twin."""
+import re
 
 
 class Leaky:
@@ -9,6 +10,8 @@ class Leaky:
             d.field(a, b)
         k = len(self.params)
         d.text(self.param_types[k])                              # 3: no bound at all
+        if re.search(rf":param\s+{self.name}\s*:", self.doc):    # 4: field text spliced into a pattern unescaped
+            d.text("documented")
 
 
 class Bounded:
@@ -20,3 +23,5 @@ class Bounded:
         for i, t in enumerate(self.param_types):
             if i < len(self.params):
                 d.field(self.params[i], t)
+        if re.search(rf":param\s+{re.escape(self.name)}\s*:", self.doc) or re.search(r":type \w+:", self.doc):
+            d.text("documented")
